@@ -455,8 +455,13 @@ def rule_json_bytes(ctx):
     ctx.analysed(ps)
     g2, mf2, res2 = an.get(ps)
     dec_forms = {}
+    # the scanned string is the first value of the scanstring() call, whatever the local is called
+    scans = [x for x in walk_no_defs(ps.node) if isinstance(x, ast.Assign) and isinstance(x.value, ast.Call) and (call_name(x.value) or "").split(".")[-1] == "scanstring"
+             and isinstance(x.targets[0], ast.Tuple) and x.targets[0].elts and isinstance(x.targets[0].elts[0], ast.Name)]
+    ctx.require(len(scans) == 1, "_parse_string: `<string>, <index> = scanstring(...)` not found")
+    sv = scans[0].targets[0].elts[0].id
     for n in g2.stmt_nodes():
-        if n.kind == "stmt" and isinstance(n.ast, ast.Assign) and norm.text(n.ast.targets[0]) == "s" and isinstance(n.ast.value, ast.Call):
+        if n.kind == "stmt" and isinstance(n.ast, ast.Assign) and isinstance(n.ast.value, ast.Call):
             fnm = (call_name(n.ast.value) or "").split(".")[-1]
             if fnm not in PAIRS.values():
                 continue
@@ -465,7 +470,7 @@ def rule_json_bytes(ctx):
             off = arg.slice.lower.value if isinstance(arg, ast.Subscript) and isinstance(arg.slice, ast.Slice) and isinstance(arg.slice.lower, ast.Constant) and arg.slice.upper is None else None
             pref = None
             for f in mf2.at(n):
-                if f[0] == "eq" and f[3] and f[2][0] == "c" and isinstance(f[2][1], str) and f[1].startswith("s["):
+                if f[0] == "eq" and f[3] and f[2][0] == "c" and isinstance(f[2][1], str) and f[1].startswith(f"{sv}["):
                     pref = (f[1], f[2][1])
             dec_forms[hexmode] = (pref, fnm, off)
     ctx.require(set(dec_forms) == {True, False}, "JSON decoder hex / base64 branches not found")
@@ -474,9 +479,9 @@ def rule_json_bytes(ctx):
         (dexpr, dpref), dfn, off = (dec_forms[mode][0] or (None, None)), dec_forms[mode][1], dec_forms[mode][2]
         nm = "hex ('0x')" if mode else "base64 (NUL)"
         ctx.ob(f"{nm}: decoder tests the prefix the encoder writes", dpref == epref, f"encoder prefix {epref!r}, decoder tests {dexpr} == {dpref!r}", ps.loc())
-        want = f"s[0:{len(epref)}]" if len(epref) > 1 else "s[0]"
-        ctx.ob(f"{nm}: prefix test covers exactly the prefix", dexpr in (want, f"s[:{len(epref)}]"), f"decoder tests {dexpr}", ps.loc())
-        ctx.ob(f"{nm}: decoder strips exactly the prefix", off == len(epref), f"decodes s[{off}:] after a {len(epref)}-character prefix", ps.loc())
+        want = f"{sv}[0:{len(epref)}]" if len(epref) > 1 else f"{sv}[0]"
+        ctx.ob(f"{nm}: prefix test covers exactly the prefix", dexpr in (want, f"{sv}[:{len(epref)}]"), f"decoder tests {dexpr}", ps.loc())
+        ctx.ob(f"{nm}: decoder strips exactly the prefix", off == len(epref), f"decodes {sv}[{off}:] after a {len(epref)}-character prefix", ps.loc())
         ctx.ob(f"{nm}: decoder applies the inverse of the encoder's function", PAIRS.get(efn_) == dfn, f"{efn_} vs {dfn}", ps.loc())
     # ... and the round trip itself, cell-wise (sa.core.tiny; hex / base64 of the standard library answered by the oracle): what default()
     # writes for a binary value, handed to _parse_string as the scanned JSON string, comes back as that binary value -- the empty one included
